@@ -1935,7 +1935,7 @@ class Message(Group):
 
         if reference is not None:
             try:
-                reference = reference[name]
+                reference = reference[name.upper() if name is not None else name]
                 if reference[0] == 'mp':
                     raise LegacyMessageProfile()
             except KeyError:
